@@ -486,6 +486,8 @@ def full_iter(ctx, S: Scope, it: ast.AST) -> Optional[Dict[int, str]]:
                     key = lv.get("key") if lv else None
                     if isinstance(key, ast.Name) and key.id == v.generators[0].target.id:
                         return "extent"         # the layout extent of each state symbol, in state order
+            if isinstance(v.elt, ast.Constant) and v.elt.value == 1:
+                return "ones"               # one position per variable, whatever its extent
             return "image:" + src
         return None
     if isinstance(e, ast.Call) and isinstance(e.func, ast.Name) and e.func.id == "zip":
@@ -498,6 +500,51 @@ def full_iter(ctx, S: Scope, it: ast.AST) -> Optional[Dict[int, str]]:
         return out or None
     r = one(e)
     return {-1: r} if r else None
+
+
+def subset_reason(ctx, S: Scope, it: ast.AST, depth=0) -> Optional[str]:
+    """A positive reason why iterating `it` does NOT visit every state variable exactly once (it is a group / filtered list /
+    slice / another kind of collection); None when nothing of the kind can be read off the code."""
+    if depth > 4:
+        return None
+    e = strip_wrappers(it)
+    if isinstance(e, ast.Call) and isinstance(e.func, ast.Name) and e.func.id in ("zip", "enumerate") and e.args:
+        for a in (e.args if e.func.id == "zip" else e.args[:1]):
+            r = subset_reason(ctx, S, a, depth + 1)
+            if r:
+                return r
+        return None
+    if isinstance(e, ast.Subscript) and isinstance(e.slice, ast.Slice):
+        return f"`{ast.unparse(e)}` is a slice"
+    if isinstance(e, (ast.ListComp, ast.GeneratorExp)) and any(g.ifs for g in e.generators):
+        return f"`{ast.unparse(e)[:60]}` is filtered"
+    if isinstance(e, ast.Call) and isinstance(e.func, ast.Attribute) and e.func.attr in ("items", "keys", "values") and not e.args:
+        base = e.func.value
+        if isinstance(base, ast.Name):
+            bs = S.binds(base)
+            if len(bs) == 1 and bs[0].kind == "value" and len(bs[0].path) == 1 and isinstance(bs[0].expr, ast.Call) \
+                    and call_name(bs[0].expr) == "_get_symbolic_rhs" and bs[0].path[0] not in symbolic_rhs_roles(ctx):
+                return f"`{base.id}` is not one of the per-DE lists of _get_symbolic_rhs"
+            if bs and all(b.kind in ("value", "aug") for b in bs) and any(
+                    b.expr is not None and (isinstance(b.expr, (ast.Dict, ast.DictComp)) or
+                                            (isinstance(b.expr, ast.Call) and call_name(b.expr) in ("dict", "defaultdict", "fromkeys")))
+                    for b in bs if b.kind == "value"):
+                return f"`{base.id}` is a table built in this function, not the state list"
+        return None
+    if isinstance(e, ast.Name):
+        bs = S.binds(e)
+        if len(bs) == 1 and bs[0].kind == "iter":
+            role, base, rest = element_origin(bs[0].expr, bs[0].path)
+            if role in ("value", "elem", "key"):
+                return f"`{e.id}` is one {'group' if role != 'key' else 'key'} of `{ast.unparse(base)[:50]}`"
+        if len(bs) == 1 and bs[0].kind == "value" and bs[0].expr is not None:
+            v = bs[0].expr
+            if len(bs[0].path) == 1 and isinstance(v, ast.Call) and call_name(v) == "_get_symbolic_rhs" \
+                    and bs[0].path[0] not in symbolic_rhs_roles(ctx):
+                return f"`{e.id}` is not one of the per-DE lists of _get_symbolic_rhs"
+            if not bs[0].path:
+                return subset_reason(ctx, S, v, depth + 1)
+    return None
 
 
 # =================================================================================================
@@ -1021,6 +1068,11 @@ def check_full_counter(ctx, S: Scope, lay: Layout, c: Counter, sink: ast.AST, el
         return probs + [f"`{c.name}` is not advanced inside a loop"], facts
     roles = full_iter(ctx, S, c.loop.iter)
     if roles is None:
+        sub = subset_reason(ctx, S, c.loop.iter)
+        if sub is None:
+            raise AnalysisError(f"C12: {S.f.qual}: cannot decide whether `{ast.unparse(c.loop.iter)}` (the loop that advances "
+                                f"`{c.name}`) visits every state variable exactly once (unrecognised form)")
+        facts["subset"] = sub
         probs.append(f"`{c.name}` is advanced once per element of `{ast.unparse(c.loop.iter)}`, which is not the full state list "
                      f"(zip of the per-DE lists of _get_symbolic_rhs / var_updates['DEs']): it counts positions inside that subset, "
                      f"not positions in y")
@@ -1030,8 +1082,11 @@ def check_full_counter(ctx, S: Scope, lay: Layout, c: Counter, sink: ast.AST, el
     if r != want:
         probs.append(f"`{ast.unparse(elem)}` ({'function differentiated' if want == 'f' else 'symbol differentiated against'}) is not "
                      f"the {want!r} element of the loop that advances `{c.name}`: the counter is the position of a different variable")
-    if _loop_elem_role(S, c.loop, roles, S.single_value(c.aug.value)) == "extent":
+    inc_role = _loop_elem_role(S, c.loop, roles, S.single_value(c.aug.value))
+    if inc_role == "extent":
         kind, I = "precomputed", None       # the loop's own element of the per-DE list of layout extents
+    elif inc_role == "ones":
+        kind, I = "one", None
     else:
         kind, I = extent_operand(S, c.aug.value)
     if kind == "precomputed":
